@@ -53,6 +53,9 @@ CHECKS['C15'] = ('property-based testing: sharing-biased model generator, byte-l
 CHECKS['C19'] = ('property-based testing with a differential oracle: multi-subgraph model vs the stand-alone single-subgraph models built from the same spec, same recipe, same merged statistics',
   'Generated models with 2..3 subgraphs (independent, sharing constant buffers, structurally equal twins with renamed tensors) are quantized as a whole and subgraph by subgraph (stand-alone models built from the same spec) with the same recipe and the same merged statistics; subgraph i of the multi result must equal subgraph 0 of the stand-alone result in tensors (names, shapes, dtypes, scales, zero points, quantized dimension, decoded constant bytes), operators (kind, wiring, options), graph inputs/outputs and signature entries; a rejection of one side only is a violation unless constants are shared across subgraphs.',
   'Buffer/opcode indices compared through what they denote; statistics come from calibrating the stand-alone models.', 'DESIGN.md 4 C19')
+CHECKS['C18'] = ('property-based testing: validate()/compare_model vs an independently recomputed per-tensor metric from the check\'s own interpreter pairs; metric laws on generated arrays',
+  'Generated models x recipes x 1..3 test samples per signature x both metrics: the four groups returned by validate() (or compare_model(float, float)) must contain exactly the tensor names present in both models\' main subgraph, each once, filed under inputs/outputs/constants/intermediates as the float model defines them, with values equal (rtol 1e-5) to the metric the check computes from its own two interpreter runs with its own dequantization, averaged over samples; self-comparison must be exactly 0; generated array pairs (incl. NaN/inf) check non-negativity, zero on equal arguments, MSE symmetry and the documented sanitising.',
+  'Interpreter-created temporaries (e.g. BatchMatMul_scratch_buffer) are outside the property and ignored; inputs are quantized with the convention validate() uses.', 'DESIGN.md 4 C18')
 NOT_APPLICABLE = {}
 
 def main():
